@@ -276,8 +276,9 @@ INERT_CANDIDATES = ["xyzzy", "plugh", "qux", "zork", "blorb", "wibble", "grue", 
                     # inert words that are not made of letters only ('#' without being a hashtag, digits inside, punctuation)
                     "C#", "F#", "#", "R2D2x", "w/o", "AT&T", "e=mc", "50%x", "@home", "foo_bar",
                     # words whose head or tail is a piece of a pattern (st, a, very, not, right, pm ...): inert alone, and a pattern
-                    # must not reach into them from the expression next to them
-                    "street", "staff", "thanks", "terrace", "pizza", "oma", "every", "knot", "copyright", "pmx", "quarter", "amx",
+                    # must not reach into them from the expression next to them ("quarter" is NOT such a word: "quarter after 17:30" is
+                    # an expression of its own - it was in this list for a while and raised a false alarm in the thorough tier)
+                    "street", "staff", "thanks", "terrace", "pizza", "oma", "every", "knot", "copyright", "pmx", "amx",
                     "nachbar", "vorname", "abend2", "spam", "diagram",
                     # ... followed by a non-ASCII letter (ASCII-only look-arounds would let the pattern in)
                     "Hütte", "Männer", "Möbel", "Hände", "hübsch", "Mühle", "Tänzer", "näher", "übung", "ärger"]
